@@ -111,6 +111,7 @@ def run(P: Program, rep: Report):
 
     bad = {}
     n = 0
+    okrows = {}
     for kind in MW:
         for v in vals:
             def one(ctx):
@@ -131,11 +132,14 @@ def run(P: Program, rep: Report):
                     bad.setdefault(f"{kind}:block:{vk}", f"{MW[kind]} returns {res[1]!r} for month value {v!r}")
                 elif not (res[1] == want and type(res[1]) is type(want)) or res[2] != "t" or res[3] != 2:
                     bad.setdefault(f"{kind}:value:{vk}", f"{MW[kind]} turns month {v!r} into {res[1]!r}, the contract gives {want!r}")
+                else:
+                    okrows[(kind, vk)] = okrows.get((kind, vk), 0) + 1
     rep.count("value_table_rows", n)
     for k, msg in sorted(bad.items()):
         rep.fail("C15.R2", f"month-table:{k}", classes[k.split(':')[0]].loc, msg)
-    if not bad:
-        rep.ok("C15.R2", f"month-table:{n}-rows", mod.relpath)
+    for (kind, vk), k in sorted(okrows.items()):
+        if not any(b.startswith(f"{kind}:") and b.endswith(vk) for b in bad):
+            rep.ok("C15.R2", f"month-table:{kind}:{vk}:{k}-rows", classes[kind].loc)
     # entry without month
     for kind in MW:
         def one(ctx):
